@@ -307,7 +307,8 @@ def truncatewords(val: str, num: Any = 15, end: str = "...") -> str:
     if num >= MAX_TRUNC_WORDS:
         return val
 
-    if len(words) < num:
+    if len(words) <= num:
+        # Nothing to cut, so no `end`.
         return " ".join(words)
 
     return " ".join(words[:num]) + end
